@@ -371,9 +371,10 @@ class Profile(HookHost):
         return HexagonProfile(side, height, diagonal, corner_radius, **kwargs)
 
     def local_height(self, z: float) -> float:
-        coords = np.array([(1, -1), (1, 1)]) * (z, self.height)
+        _, min_y, _, max_y = self.cross_section.bounds
+        margin = max_y - min_y
 
-        vline = LineString(coords)
+        vline = LineString([(z, min_y - margin), (z, max_y + margin)])
 
         tolerance = 1e-12
 
@@ -382,9 +383,10 @@ class Profile(HookHost):
         return intersection.length
 
     def local_width(self, y: float) -> float:
-        coords = np.array([(-1, 1), (1, 1)]) * (self.width, y)
+        min_z, _, max_z, _ = self.cross_section.bounds
+        margin = max_z - min_z
 
-        hline = LineString(coords)
+        hline = LineString([(min_z - margin, y), (max_z + margin, y)])
 
         tolerance = 1e-12
 
